@@ -12,7 +12,7 @@ META = {
         "discipline in the 30-day producer): sell-time quantity = min(remaining, available ÷ ratio); buy-time quantity = that × "
         "ratio; Match.quantity and `remaining −=` take the sell-time term, the future claim and the cost take the buy-time term. "
         "R4 (variant coverage): every function that walks the transaction slice, reads both Buy.amount and Sell.amount and keeps "
-        "per-lot share counts across dates must also read Split.ratio and Unsplit.ratio. Does not compare with a rescaled ledger."),
+        "per-lot share counts across dates must also read Split.ratio and Unsplit.ratio. Does not compare with a rescaled ledger. R6: a function that re-writes the size of an acquisition lot re-writes every share counter booked against it too (a lot is restated whole or not at all). R7: every SPLIT/UNSPLIT line of a day is applied (shared with C01-R2)."),
     "trusted_base": ["rust_decimal arithmetic", "rustc MIR + resolution"],
 }
 
